@@ -109,19 +109,40 @@ package tls
 // a new intermediates pool holding the other certificates of the message. C32: no panic for any
 // non-empty certificate list (both callers reject an empty list before the call; the log entry
 // has been shaped by certificateMsg.MakeLog on the same message - vscLog).
-//@ pred vscLog(c, n) = c.handshakeLog != nil && c.handshakeLog.ServerCertificates != nil && len(c.handshakeLog.ServerCertificates.Chain) >= n - 1 && sep(c.handshakeLog.ServerCertificates.Chain, c.handshakeLog.ServerCertificates)
+//@ pred vscSC(c) = c.handshakeLog.ServerCertificates
+//@ pred vscLog(c, n) = c.handshakeLog != nil && vscSC(c) != nil && len(vscSC(c).Chain) >= n - 1 && sep(vscSC(c).Chain, vscSC(c)) && sep(vscSC(c), c) && sep(vscSC(c).Chain, c) && sep(vscSC(c), c.config) && sep(vscSC(c).Chain, c.config) && sep(vscSC(c), c.handshakeLog) && sep(vscSC(c).Chain, c.handshakeLog)
+// the log objects are the ones the function was entered with
+//@ pred vscLogKept(c) = c.handshakeLog == old(c.handshakeLog) && vscSC(c) == old(vscSC(c)) && same(vscSC(c).Chain, old(vscSC(c).Chain))
+// the configuration values the check depends on are the ones the function was entered with
+//@ pred vscCfg(c) = c.config == old(c.config) && c.config.RootCAs == old(c.config.RootCAs) && c.config.ServerName == old(c.config.ServerName) && c.config.InsecureSkipVerify == old(c.config.InsecureSkipVerify)
+// Everything AddCert may write (its frame: the pool's certs field and array, the three map
+// objects, the index lists) belongs to the new pool q: allocated by this call and apart from
+// the function's own new objects x (the array of parsed certificates, the local opts).
+//@ pred vscOwn(q, x) = sep(q.certs, x) && sep(q.bySHA256, x) && sep(q.byName, x) && sep(q.bySubjectKeyId, x) && forallv(k, string, sep(q.byName[k], x)) && forallv(k, string, sep(q.bySubjectKeyId[k], x))
+//@ pred vscNew(q) = q != nil && fresh(q) && (q.certs == nil || fresh(q.certs)) && fresh(q.bySHA256) && fresh(q.byName) && fresh(q.bySubjectKeyId)
+// ... and its index lists are apart from the connection, its configuration and the log entry
+//@ pred vscLists(q, c) = forallv(k, string, sep(q.byName[k], c) && sep(q.byName[k], c.config) && sep(q.byName[k], c.handshakeLog) && sep(q.byName[k], vscSC(c))) && forallv(k, string, sep(q.bySubjectKeyId[k], c) && sep(q.bySubjectKeyId[k], c.config) && sep(q.bySubjectKeyId[k], c.handshakeLog) && sep(q.bySubjectKeyId[k], vscSC(c)))
 //@ func (*Conn).verifyServerCertificate
 //@   requires c != nil && c.config != nil && len(certificates) > 0
 //@   requires vscLog(c, len(certificates))
-//@   assume_nopanic sendAlert
+// (sendAlert is always followed by a return; in between only certs[0] - a new object of this
+// call - is read for an error text: the alert writer is taken as not touching it. Callbacks of
+// the configuration are user code: assumed not to panic and not to write existing objects.)
+//@   assume_pure sendAlert
 //@   assume_pure funcvalue
 //@   loop 1 invariant 0 <= it && it <= len(certificates) && len(certs) == len(certificates) && fresh(certs)
 //@   loop 1 invariant forall(k, 0, it, certs[k] != nil && allocated(certs[k]))
-//@   loop 2 invariant 0 <= it && opts.Intermediates != nil && fresh(opts.Intermediates)
-//@   loop 2 invariant forall(k, 0, len(certs), certs[k] != nil && allocated(certs[k]))
-//@   loop 2 invariant opts.Roots == c.config.RootCAs && opts.DNSName == c.config.ServerName && c.config == old(c.config) && vscLog(c, len(certificates))
+//@   loop 2 invariant 0 <= it && len(certs) == len(certificates) && fresh(certs)
+//@   loop 2 invariant opts.Intermediates == atentry(opts.Intermediates) && taPoolInv(opts.Intermediates)
+//@   loop 2 invariant vscNew(opts.Intermediates)
+//@   loop 2 invariant vscLists(opts.Intermediates, c)
+//@   loop 2 invariant vscOwn(opts.Intermediates, certs)
+//@   loop 2 invariant vscOwn(opts.Intermediates, &opts)
+//@   loop 2 invariant forall(k, 0, len(certs), certs[k] != nil && sep(opts.Intermediates, certs[k]))
+//@   loop 2 invariant opts.Roots == old(c.config.RootCAs) && opts.DNSName == old(c.config.ServerName) && vscCfg(c) && vscLogKept(c)
 //@   at call ValidateWithStupidDetail assert arg0 == certs[0] && arg1.Roots == c.config.RootCAs && arg1.DNSName == c.config.ServerName && fresh(arg1.Intermediates)
 //@   ensures  [chain] result == nil && !old(c.config.InsecureSkipVerify) ==> ghost.chainOK(c.peerCertificates[0], old(c.config.RootCAs), old(c.config.ServerName))
+//@   ensures  [leaf] result == nil ==> len(c.peerCertificates) == len(certificates) && c.peerCertificates[0] != nil
 //@   modifies all
 
 // ---------------------------------------------------------------- common.go: TLS 1.2 SignatureAndHashAlgorithm lists
@@ -134,13 +155,17 @@ package tls
 //@ global forall(i, 0, len(supportedSKXSignatureAlgorithms), hashIdOK(supportedSKXSignatureAlgorithms[i].Hash))
 //@ global forall(i, 0, len(defaultSKXSignatureAlgorithms), hashIdOK(defaultSKXSignatureAlgorithms[i].Hash))
 // A configured list (Config.SignatureAndHashes, "the signature and hash algorithms to be accepted
-// by a server, or sent by a client") must stay within those identifiers: for any other value
-// the client would look up no hash function and crypto.Hash(0).New() panics (see notes, R1).
+// by a server, or sent by a client") that stays within those identifiers. NOT a precondition of
+// the client-side checks: C32 quantifies over configurations. For a list with any other hash
+// value the obligation verifyParameters#pre@tls.hashForServerKeyExchange FAILS - candidate
+// defect D1 (see notes): the peer names that hash, no hash function is found and
+// crypto.Hash(0).New() panics.
 //@ pred cfgHashesOK(c) = c.SignatureAndHashes != nil ==> forall(i, 0, len(c.SignatureAndHashes), hashIdOK(c.SignatureAndHashes[i].Hash))
 
 //@ func (*Config).signatureAndHashesForClient
-//@   requires c != nil && cfgHashesOK(c)
-//@   ensures  forall(i, 0, len(result), hashIdOK(result[i].Hash))
+//@   requires c != nil
+//@   ensures  cfgHashesOK(c) ==> forall(i, 0, len(result), hashIdOK(result[i].Hash))
+//@   ensures  c.SignatureAndHashes != nil ==> same(result, c.SignatureAndHashes)
 //@   modifies nothing
 //@   terminates
 
@@ -161,7 +186,7 @@ package tls
 //@ pred vpKeyOK(pk) = (ltRSA(pk) ==> unboxed(pk, *zcrypto_rsa.PublicKey) != nil) && (typeis(pk, *zcrypto_x509.AugmentedECDSA) ==> vpAug(pk) != nil && vpAug(pk).Pub != nil && vpAug(pk).Pub.Curve != nil && vpAug(pk).Pub.X != nil && vpAug(pk).Pub.Y != nil) && dsaStdOK(pk)
 // (objects of different Go types cannot overlap; the untyped memory model needs to be told)
 //@ pred vpKeySep(o, pk) = (typeis(pk, *zcrypto_x509.AugmentedECDSA) ==> sep(o, vpAug(pk)) && sep(o, vpAug(pk).Pub)) && (typeis(pk, *crypto_dsa.PublicKey) ==> sep(o, unboxed(pk, *crypto_dsa.PublicKey)))
-//@ pred vpArgsOK(config, clientHello, serverHello, cert) = config != nil && cfgHashesOK(config) && clientHello != nil && serverHello != nil && cert != nil && vpKeyOK(cert.PublicKey)
+//@ pred vpArgsOK(config, clientHello, serverHello, cert) = config != nil && clientHello != nil && serverHello != nil && cert != nil && vpKeyOK(cert.PublicKey)
 
 // C27 (DHE suites, RFC 5246 7.4.3: the signature covers client random, server random and the
 // ServerDHParams): verifyParameters returns a nil error only on the path through one of the
@@ -329,4 +354,37 @@ package tls
 //@   at call Next assert arg1 == 4 + n && 0 <= n && n <= maxHandshake && bbLen(&c.hand) >= 4 + n
 //@   at call unmarshal assert len(arg1) == 4 + n && fresh(arg1) && sep(unboxed(arg0, *byte), arg1)
 //@   ensures  result1 != nil ==> result0 == nil
+//@   modifies all
+
+// ---------------------------------------------------------------- handshake_server.go: client certificates
+
+// C27 "a server requiring client certificates completes only with a client that [...], when
+// verification is requested, whose chain verifies": processCertsFromClient returns nil
+//  [required] never for an empty list under RequireAnyClientCert / RequireAndVerifyClientCert;
+//  [verify]   under VerifyClientCertIfGiven / RequireAndVerifyClientCert with a non-empty list
+//             only after certs[0].Verify returned a nil error (ghost.clientChainOK, set by
+//             nothing else) with Roots = config.ClientCAs and the single key usage
+//             ExtKeyUsageClientAuth (`at call Verify assert`), the leaf being the certificate
+//             stored as c.peerCertificates[0].
+// C32: no panic for any certificate list a client can send (including the empty one).
+//@ pred pcfCfg(c) = c.config == old(c.config) && c.config.ClientCAs == old(c.config.ClientCAs) && c.config.ClientAuth == old(c.config.ClientAuth)
+//@ pred pcfLists(q, c) = forallv(k, string, sep(q.byName[k], c) && sep(q.byName[k], c.config)) && forallv(k, string, sep(q.bySubjectKeyId[k], c) && sep(q.bySubjectKeyId[k], c.config))
+//@ func (*Conn).processCertsFromClient
+//@   requires c != nil && c.config != nil
+//@   assume_pure sendAlert
+//@   assume_pure funcvalue
+//@   loop 1 invariant 0 <= it && it <= len(certificates) && len(certs) == len(certificates) && fresh(certs) && same(certificates, certificate.Certificate)
+//@   loop 1 invariant forall(k, 0, it, certs[k] != nil && allocated(certs[k]))
+//@   loop 2 invariant 0 <= it && len(certs) == len(certificates) && len(certs) > 0 && fresh(certs)
+//@   loop 2 invariant opts.Intermediates == atentry(opts.Intermediates) && taPoolInv(opts.Intermediates)
+//@   loop 2 invariant vscNew(opts.Intermediates)
+//@   loop 2 invariant pcfLists(opts.Intermediates, c)
+//@   loop 2 invariant vscOwn(opts.Intermediates, certs)
+//@   loop 2 invariant vscOwn(opts.Intermediates, &opts)
+//@   loop 2 invariant forall(k, 0, len(certs), certs[k] != nil && sep(opts.Intermediates, certs[k]))
+//@   loop 2 invariant opts.Roots == old(c.config.ClientCAs) && len(opts.KeyUsages) == 1 && fresh(opts.KeyUsages) && sep(opts.KeyUsages, certs) && pcfCfg(c)
+//@   at call Verify assert arg0 == certs[0] && arg1.Roots == c.config.ClientCAs && len(arg1.KeyUsages) == 1 && fresh(arg1.Intermediates)
+//@   ensures  [required] len(certificate.Certificate) == 0 && (old(c.config.ClientAuth) == RequireAnyClientCert || old(c.config.ClientAuth) == RequireAndVerifyClientCert) ==> result != nil
+//@   ensures  [verify] result == nil && old(c.config.ClientAuth) >= VerifyClientCertIfGiven && len(certificate.Certificate) > 0 ==> ghost.clientChainOK(c.peerCertificates[0], old(c.config.ClientCAs))
+//@   ensures  [leaf] result == nil ==> len(c.peerCertificates) == len(certificate.Certificate)
 //@   modifies all
